@@ -715,3 +715,22 @@ Proof.
 Qed.
 Lemma polygon_query_entry_total ls : polygon_query_entry ls = Ok tt.
 Proof. unfold polygon_query_entry, polygon_has_index. now destruct (cloops_full ls). Qed.
+
+(** * numVertices of a decoded polygon is the sum of its loop lengths, and the encoder's
+    [numVertices == 0] shortcut (encodeCompressed with no vertex data, slicing [vertices[:len]]
+    for every loop) is taken only when every loop is vertex-less *)
+Lemma fold_num_acc (ls : list loop) : forall a,
+  fold_left (fun a l => a + len (l_vertices l)) ls a = a + len (concat (map l_vertices ls)).
+Proof.
+  induction ls as [|l t IH]; intros a; cbn [fold_left map concat].
+  - unfold len. cbn. lia.
+  - rewrite IH. unfold len. rewrite app_length, Nat2Z.inj_add. lia.
+Qed.
+Lemma num_vertices_sum p : num_vertices p = len (concat (map l_vertices (p_loops p))).
+Proof. unfold num_vertices. now rewrite fold_num_acc. Qed.
+Lemma num_vertices_zero p : num_vertices p = 0 -> Forall (fun l => l_vertices l = []) (p_loops p).
+Proof.
+  rewrite num_vertices_sum. unfold len. intros H.
+  assert (E : concat (map l_vertices (p_loops p)) = []) by (destruct (concat _); [reflexivity|cbn in H; lia]).
+  clear H. induction (p_loops p) as [|l t IH]; constructor; cbn [map concat] in E; apply app_eq_nil in E; tauto.
+Qed.
